@@ -37,9 +37,17 @@ def param_field(e, params, env=None):
     return None
 
 
+class Lossy(Exception):
+    """the comparator orders a field through a helper that identifies distinct values (a witness is in the message)"""
+
+
+LOSSY_CALLS = ('tolower', 'toupper', 'towlower', 'towupper', 'strcasecmp', 'strncasecmp', 'stricmp', 'isspace', 'abs')
+
+
 class Cmp:
-    def __init__(self, f):
+    def __init__(self, f, facts=None):
         self.f = f
+        self.facts = facts
         if len(f['params']) != 2:
             raise Unsupported('comparator with %d parameters' % len(f['params']))
         self.params = {f['params'][0]['d']: 0, f['params'][1]['d']: 1}
@@ -72,6 +80,17 @@ class Cmp:
         if e.get('k') in ('bin', 'call') and e.get('op') == '<=>':
             a, b = (e['l'], e['r']) if e.get('k') == 'bin' else ((e['obj'], e['args'][0]) if e.get('obj') is not None else (e['args'][0], e['args'][1]))
             return self.rel(a, b, sigma)
+        if e.get('k') == 'call' and e.get('obj') is None and e.get('ck') != 'operator' and len(e.get('args', [])) == 2 and self.facts is not None:
+            # a hand-written three-way helper over one field of both operands
+            pa, pb = param_field(e['args'][0], self.params, self.env), param_field(e['args'][1], self.params, self.env)
+            g = self.facts.fn(e.get('callee'), optional=True) if e.get('callee') else None
+            if pa is not None and pb is not None and pa[1] == pb[1] and pa[0] != pb[0] and g is not None and g.get('body') is not None:
+                lossy = sorted(set((x.get('callee') or '').split('::')[-1] for x in walk_all_exprs(g['body'])
+                                   if x.get('k') == 'call' and (x.get('callee') or '').split('::')[-1] in LOSSY_CALLS))
+                if lossy:
+                    raise Lossy('field %s is ordered by %s(), which compares through %s: two keys that differ only in what %s removes are equivalent '
+                                '(e.g. "Lib.theo" and "lib.theo")' % (pa[1], g['q'].split('::')[-1], '/'.join(lossy), '/'.join(lossy)))
+                raise Unsupported('field %s is ordered by the hand-written helper %s()' % (pa[1], g['q'].split('::')[-1]))
         return None
 
     def rel(self, a, b, sigma):
